@@ -22,8 +22,8 @@ import (
 func init() {
 	Register(&Prop{
 		ID:   "C10",
-		Expl: "Decides on SSA and the VTA call graph: (R1) activeSwaps is only ever assigned a fresh map and only inserted into by lockSwap; the conflict edge of every channel test in lockSwap cannot reach the insert and returns a non-nil error; every SendEvent/Recover outside the state machine's own methods is applied either to a machine taken from activeSwaps or to the very machine that the same function passed to lockSwap (or to a wrapper that succeeds only behind lockSwap's success edge), behind the success edge, and lockSwap is always given <machine>.SwapId.String() as key; (R2) both operands of every channel test in lockSwap (an == comparison, a norm(a)==norm(b) helper, or a lookup in a channel-keyed map whose inserts are examined too) are results of a scid normaliser (strings.ReplaceAll / Replace / a strings.Replacer built from exactly that pair between ':' and 'x', or any module function that returns only such results: Scid.ClnStyle/LndStyle, GetScidInBoltFormat; a value produced by a call that is not understood makes the rule undecided, not violated) of one and the same spelling, followed through all call sites of lockSwap; (R3) the channel of an existing entry that the test reads is a field or map written only by lockSwap (or a setter called only by lockSwap) from its channel parameter — not read from SwapData, which ApplyToSwapData fills later under another lock; (R4) below OnMessageReceived, every path from the error edge of lockSwap to a return sends MarshalPeerswapMessage(&CancelMessage{SwapId: requested id}) to the requesting peer (directly or through a helper that does so on all its paths), or hands the refusal up to a caller that does; (R5) every release of an activeSwaps entry (delete, or a call of a function that deletes its parameter) outside dead code is dominated by done == true of a SendEvent/Recover on the machine whose id (or activeSwaps lookup key) is released, also when machine and done flag are passed to a helper or the release sits in an unconditional helper whose callers are then examined. Quantifier: all call sites, all CFG paths, all call-graph callers.",
-		NotD: "Whether the loop in lockSwap visits every entry (only the edges of the comparison are examined); run-time interleavings of two lockSwap callers beyond the fact that test and insert sit in one function (C19); that a swap for which SendEvent returned done is terminal (C16) and that every terminal swap is eventually released (a leaked entry only over-blocks); channel ids that differ in more than the separator; the RPC front ends (peerswaprpc/server.go passes the ':' spelling, clightning_commands.go the 'x' spelling — they are reported as sources of the unnormalised operand, not checked themselves).",
+		Expl: "Decides on SSA and the VTA call graph: (R1) activeSwaps is only ever assigned a fresh map and only inserted into by lockSwap; the conflict edge of every channel test in lockSwap cannot reach the insert and returns a non-nil error; every scan of the active swaps for the channel (in lockSwap or in a scan helper, whether or not the helper's answers are understood) and the insert lie behind one and the same acquisition of the service write lock with no release in between — a scan helper that takes the service lock itself, a scan before the acquisition, or an explicit unlock between scan and insert is a violation; every SendEvent/Recover outside the state machine's own methods is applied either to a machine taken from activeSwaps or to the very machine that the same function passed to lockSwap (or to a wrapper that succeeds only behind lockSwap's success edge), behind the success edge, and lockSwap is always given <machine>.SwapId.String() as key; (R2) both operands of every channel test in lockSwap (an == comparison, a norm(a)==norm(b) helper, or a lookup in a channel-keyed map whose inserts are examined too) are results of a scid normaliser (strings.ReplaceAll / Replace / a strings.Replacer built from exactly that pair between ':' and 'x', or any module function that returns only such results: Scid.ClnStyle/LndStyle, GetScidInBoltFormat; a value produced by a call that is not understood makes the rule undecided, not violated) of one and the same spelling, followed through all call sites of lockSwap; (R3) the channel of an existing entry that the test reads is a field or map written only by lockSwap (or a setter called only by lockSwap) from its channel parameter — not read from SwapData, which ApplyToSwapData fills later under another lock; (R4) below OnMessageReceived, every path from the error edge of lockSwap to a return sends MarshalPeerswapMessage(&CancelMessage{SwapId: requested id}) to the requesting peer (directly or through a helper that does so on all its paths), or hands the refusal up to a caller that does; (R5) every release of an activeSwaps entry (delete, or a call of a function that deletes its parameter) outside dead code is dominated by done == true of a SendEvent/Recover on the machine whose id (or activeSwaps lookup key) is released, also when machine and done flag are passed to a helper or the release sits in an unconditional helper whose callers are then examined. Quantifier: all call sites, all CFG paths, all call-graph callers.",
+		NotD: "Whether the loop in lockSwap visits every entry (only the edges of the comparison are examined); run-time interleavings of two lockSwap callers beyond the fact that scan and insert sit in one critical section of the service lock; that a swap for which SendEvent returned done is terminal (C16) and that every terminal swap is eventually released (a leaked entry only over-blocks); channel ids that differ in more than the separator; the RPC front ends (peerswaprpc/server.go passes the ':' spelling, clightning_commands.go the 'x' spelling — they are reported as sources of the unnormalised operand, not checked themselves).",
 		Run:  runC10,
 	})
 }
@@ -46,6 +46,7 @@ type c10Ctx struct {
 	through map[string]bool          // CallInfo names to look through when asking where a channel key comes from
 
 	chanAlias  map[ssa.Value]bool // parameters of scan helpers that receive the (derived) channel
+	scans      []c10Scan          // every scan found in lockSwap, also those whose answer shape is not understood
 	lookupFns  map[*ssa.Function]int
 	releaseFns map[*ssa.Function]int
 	lockers    map[*ssa.Function]int // lockSwap and wrappers that succeed only behind its success edge -> machine parameter index
@@ -691,6 +692,14 @@ type c10Test struct {
 	hStyle   string
 	mapField string // kind map: "Type.field" of the channel-keyed map
 	pos      token.Pos
+	site     ssa.Instruction // the instruction of the analysed function where the scan happens (the branch, or the call of a scan helper)
+	via      []*ssa.Function // scan helpers entered (outermost first)
+}
+
+// c10Scan is a place where lockSwap consults the active swaps about the channel.
+type c10Scan struct {
+	site ssa.Instruction
+	via  []*ssa.Function
 }
 
 // fromChanParam: v is computed from lockSwap's channel parameter. Every call
@@ -752,7 +761,33 @@ func (x *c10Ctx) channelTests() (tests []c10Test, unknown []string) {
 	if x.chanAlias == nil {
 		x.chanAlias = map[ssa.Value]bool{}
 	}
-	return x.channelTestsIn(x.lockSwap, 0)
+	x.scans = nil
+	tests, unknown = x.channelTestsIn(x.lockSwap, 0)
+	for _, t := range tests {
+		x.scans = append(x.scans, c10Scan{t.site, t.via})
+	}
+	return
+}
+
+// c10RetVals: the values result #i of return r may carry, with the block where
+// each is chosen (a named result spilled to a local because of a defer is
+// resolved to the stores that reach the return).
+func c10RetVals(r *ssa.Return, i int) (vals []ssa.Value, blks []*ssa.BasicBlock, ok bool) {
+	v := r.Results[i]
+	if u, isLoad := v.(*ssa.UnOp); isLoad && u.Op == token.MUL {
+		if al, isAl := u.X.(*ssa.Alloc); isAl {
+			stores, fromEntry := an.StoresReaching(u, al)
+			if fromEntry || len(stores) == 0 {
+				return nil, nil, false
+			}
+			for _, st := range stores {
+				vals = append(vals, st.Val)
+				blks = append(blks, st.Block())
+			}
+			return vals, blks, true
+		}
+	}
+	return []ssa.Value{v}, []*ssa.BasicBlock{r.Block()}, true
 }
 
 // scanHelper: cond (a bool call result in fn) comes from a module function that
@@ -793,6 +828,15 @@ func (x *c10Ctx) scanHelper(cond ssa.Value, depth int) (sub []c10Test, why strin
 	if len(sub) == 0 {
 		return nil, "helper " + x.fname(g) + " is given the channel but no channel test was found in it" + strings.Join(unk, "; "), true
 	}
+	for i := range sub {
+		sub[i].via = append([]*ssa.Function{g}, sub[i].via...)
+	}
+	if depth == 0 {
+		// remembered for the atomicity clause whatever the answer analysis below says
+		for _, t := range sub {
+			x.scans = append(x.scans, c10Scan{call, t.via})
+		}
+	}
 	// the helper must answer true on the conflict edges and false elsewhere
 	conflictReach := map[*ssa.BasicBlock]bool{}
 	for _, t := range sub {
@@ -804,25 +848,34 @@ func (x *c10Ctx) scanHelper(cond ssa.Value, depth int) (sub []c10Test, why strin
 		if bi >= len(r.Results) {
 			return nil, "helper " + x.fname(g) + ": unexpected result shape", true
 		}
-		cst, isC := c10Strip(r.Results[bi]).(*ssa.Const)
-		if !isC || cst.Value == nil {
-			return nil, "helper " + x.fname(g) + " does not return constant answers", true
+		if g.Recover != nil && r.Block() == g.Recover {
+			continue // the path taken after a recovered panic
 		}
-		val := cst.Value.String() == "true"
-		onlyConflict := true
-		// a return reachable without passing a conflict edge?
-		cut := map[an.Edge]bool{}
-		for _, t := range sub {
-			cut[t.conflict] = true
+		vals, blks, okv := c10RetVals(r, bi)
+		if !okv {
+			return nil, "helper " + x.fname(g) + ": cannot resolve its answer at " + x.w.Pos(r.Pos()), true
 		}
-		if an.ReachBlocks([]*ssa.BasicBlock{g.Blocks[0]}, cut, nil)[r.Block()] {
-			onlyConflict = false
-		}
-		switch {
-		case val && !onlyConflict:
-			return nil, "helper " + x.fname(g) + " can answer true without a channel conflict", true
-		case !val && conflictReach[r.Block()] && onlyConflict:
-			return nil, "helper " + x.fname(g) + " answers false on a conflict", true
+		for vi, rv := range vals {
+			cst, isC := c10Strip(rv).(*ssa.Const)
+			if !isC || cst.Value == nil {
+				return nil, "helper " + x.fname(g) + " does not return constant answers", true
+			}
+			val := cst.Value.String() == "true"
+			onlyConflict := true
+			// an answer chosen without passing a conflict edge?
+			cut := map[an.Edge]bool{}
+			for _, t := range sub {
+				cut[t.conflict] = true
+			}
+			if an.ReachBlocks([]*ssa.BasicBlock{g.Blocks[0]}, cut, nil)[blks[vi]] {
+				onlyConflict = false
+			}
+			switch {
+			case val && !onlyConflict:
+				return nil, "helper " + x.fname(g) + " can answer true without a channel conflict", true
+			case !val && conflictReach[blks[vi]] && onlyConflict:
+				return nil, "helper " + x.fname(g) + " answers false on a conflict", true
+			}
 		}
 	}
 	return sub, "", true
@@ -856,6 +909,7 @@ func (x *c10Ctx) channelTestsIn(fn *ssa.Function, depth int) (tests []c10Test, u
 			for _, t := range sub {
 				t.conflict = tE
 				t.pos = cond.Pos()
+				t.site = ifi
 				tests = append(tests, t)
 			}
 			continue
@@ -873,7 +927,7 @@ func (x *c10Ctx) channelTestsIn(fn *ssa.Function, depth int) (tests []c10Test, u
 				unknown = append(unknown, "comparison at "+w.Pos(y.Pos())+": both operands derive from the channel parameter")
 				continue
 			}
-			t := c10Test{kind: "==", conflict: tE, param: y.X, entry: y.Y, pos: y.Pos()}
+			t := c10Test{kind: "==", conflict: tE, param: y.X, entry: y.Y, pos: y.Pos(), site: ifi}
 			if py {
 				t.param, t.entry = y.Y, y.X
 			}
@@ -909,7 +963,7 @@ func (x *c10Ctx) channelTestsIn(fn *ssa.Function, depth int) (tests []c10Test, u
 				unknown = append(unknown, "helper "+x.fname(g)+" at "+w.Pos(y.Pos())+" is not `norm(a) == norm(b)` over its parameters")
 				continue
 			}
-			tests = append(tests, c10Test{kind: "helper", conflict: tE, param: pa[0], entry: ea[0], helper: g, hStyle: st, pos: y.Pos()})
+			tests = append(tests, c10Test{kind: "helper", conflict: tE, param: pa[0], entry: ea[0], helper: g, hStyle: st, pos: y.Pos(), site: ifi})
 		case *ssa.Extract:
 			lk, ok := y.Tuple.(*ssa.Lookup)
 			if !ok || y.Index != 1 || !lk.CommaOk || c10IsActiveMap(lk.X) {
@@ -923,7 +977,7 @@ func (x *c10Ctx) channelTestsIn(fn *ssa.Function, depth int) (tests []c10Test, u
 				unknown = append(unknown, "lookup at "+w.Pos(lk.Pos())+": the channel-keyed map is not a struct field")
 				continue
 			}
-			tests = append(tests, c10Test{kind: "map", conflict: tE, param: lk.Index, mapField: field, pos: lk.Pos()})
+			tests = append(tests, c10Test{kind: "map", conflict: tE, param: lk.Index, mapField: field, pos: lk.Pos(), site: ifi})
 		}
 	}
 	return
@@ -1139,6 +1193,10 @@ func (x *c10Ctx) ruleR1() {
 		}
 	}
 
+	// (b') scan and insert inside ONE critical section of the service lock,
+	// decided independently of whether a scan helper's answers are understood
+	x.ruleR1Atomic(inserts)
+
 	// (c) events only to gated machines; (d) key is the machine's own id
 	nLocked := 0
 	for _, fn := range prodFuncs(w) {
@@ -1274,6 +1332,151 @@ func (x *c10Ctx) positivelyUngated(fn *ssa.Function, m ssa.Value) bool {
 		return false
 	}
 	return false
+}
+
+// svcLockOp: call is Lock/RLock/Unlock/RUnlock on a sync mutex that is a field of
+// SwapService (the service lock); returns the method name.
+func (x *c10Ctx) svcLockOp(ci ssa.CallInstruction) string {
+	g := ci.Common().StaticCallee()
+	if g == nil || g.Pkg == nil || g.Pkg.Pkg.Path() != "sync" || len(ci.Common().Args) == 0 {
+		return ""
+	}
+	switch g.Name() {
+	case "Lock", "RLock", "Unlock", "RUnlock":
+	default:
+		return ""
+	}
+	fa, ok := ci.Common().Args[0].(*ssa.FieldAddr)
+	if !ok {
+		return ""
+	}
+	if n := an.NamedOf(fa.X.Type()); n == nil || n.Obj() != x.tSvc.Obj() {
+		return ""
+	}
+	return g.Name()
+}
+
+// ruleR1Atomic: every scan of the active swaps for the channel and the insert
+// happen under one acquisition of the service lock. A scan that runs under an
+// acquisition that is released before the insert's acquisition lets two
+// concurrent lock-ins both pass: positively Bad.
+func (x *c10Ctx) ruleR1Atomic(inserts []*ssa.BasicBlock) {
+	c, w := x.c, x.w
+	fn := x.lockSwap
+	cons := x.fname(fn) + " scan and insert in one critical section"
+	pos := w.Pos(fn.Pos())
+	var ins ssa.Instruction
+	for _, b := range fn.Blocks {
+		for _, in := range b.Instrs {
+			if mu, ok := in.(*ssa.MapUpdate); ok && c10IsActiveMap(mu.Map) {
+				ins = mu
+			}
+		}
+	}
+	// de-duplicated scan sites
+	seen := map[ssa.Instruction]bool{}
+	var scans []c10Scan
+	for _, sc := range x.scans {
+		if sc.site != nil && !seen[sc.site] {
+			seen[sc.site] = true
+			scans = append(scans, sc)
+		}
+	}
+	if ins == nil || len(scans) == 0 {
+		return // reported by the other clauses
+	}
+	// the write-lock acquisitions of lockSwap that lie on every path to the insert
+	var held []ssa.CallInstruction
+	var explicitUnlocks []ssa.CallInstruction
+	for _, ci := range an.Calls(fn) {
+		if _, isDefer := ci.(*ssa.Defer); isDefer {
+			continue
+		}
+		switch x.svcLockOp(ci) {
+		case "Lock":
+			if an.MustPassInstr(ins, []ssa.Instruction{ci}) {
+				held = append(held, ci)
+			}
+		case "Unlock", "RUnlock":
+			explicitUnlocks = append(explicitUnlocks, ci)
+		}
+	}
+	if len(held) == 0 {
+		c.Unknown("C10.R1", cons, pos, "lockSwap does not take the write lock of the service on every path to the insert (does its caller hold it?); the atomicity of scan and insert cannot be decided")
+		return
+	}
+	after := func(a, b ssa.Instruction) bool { // b can execute after a
+		if a.Block() == b.Block() {
+			return an.InstrIndex(a) < an.InstrIndex(b) || an.ReachBlocks(a.Block().Succs, nil, nil)[b.Block()]
+		}
+		return an.ReachBlocks(a.Block().Succs, nil, nil)[b.Block()]
+	}
+	var bad, unk []string
+	for _, sc := range scans {
+		where := w.Pos(sc.site.Pos())
+		if ifi, isIf := sc.site.(*ssa.If); isIf {
+			where = w.Pos(ifi.Cond.Pos())
+		}
+		// a helper that takes the service lock itself gives it back before it returns
+		own := ""
+		for _, g := range sc.via {
+			for _, ci := range an.Calls(g) {
+				if op := x.svcLockOp(ci); op == "Lock" || op == "RLock" {
+					own = x.fname(g) + " takes the service lock itself (" + op + " at " + w.Pos(ci.Pos()) + ") and releases it when it returns"
+				}
+			}
+		}
+		if own != "" {
+			bad = append(bad, "the scan at "+where+" runs in its own critical section: "+own+", before lockSwap acquires the lock for the insert")
+			continue
+		}
+		underSame := false
+		for _, lk := range held {
+			if !an.MustPassInstr(sc.site, []ssa.Instruction{lk}) {
+				continue
+			}
+			released := false
+			for _, u := range explicitUnlocks {
+				if after(sc.site, u) && after(u, ins) {
+					released = true
+				}
+			}
+			if !released {
+				underSame = true
+			}
+		}
+		if underSame {
+			continue
+		}
+		// before the acquisition, or the lock is given up in between
+		before := false
+		for _, lk := range held {
+			if after(sc.site, lk) && !an.MustPassInstr(sc.site, []ssa.Instruction{lk}) {
+				before = true
+			}
+		}
+		switch {
+		case before:
+			bad = append(bad, "the scan at "+where+" runs before lockSwap acquires the write lock under which it inserts")
+		default:
+			for _, u := range explicitUnlocks {
+				if after(sc.site, u) && after(u, ins) {
+					bad = append(bad, "the service lock is released at "+w.Pos(u.Pos())+" between the scan at "+where+" and the insert")
+				}
+			}
+			if len(bad) == 0 {
+				unk = append(unk, "cannot relate the scan at "+where+" to the lock acquisition of the insert")
+			}
+		}
+	}
+	switch {
+	case len(bad) > 0:
+		c.Bad("C10.R1", cons, w.Pos(ins.Pos()), strings.Join(c10Uniq(bad), "; ")+". Interleaving: two lock-ins for the same channel both finish their scan before either inserts; both see no conflict and both swaps become active on one channel")
+	case len(unk) > 0:
+		c.Unknown("C10.R1", cons, w.Pos(ins.Pos()), strings.Join(c10Uniq(unk), "; "))
+	default:
+		c.OK("C10.R1", cons, w.Pos(ins.Pos()), "every channel scan and the insert lie behind the same write-lock acquisition with no release in between")
+	}
 }
 
 // lockedBefore: machine m was passed to a locker in fn and at lies behind the
